@@ -11,4 +11,4 @@ def check(rep, tier):
     rep.run(rules_exact.run, rep, tier, rules_exact.CLAUSE_PROPS["C05"])
     rep.run(containers.run_ground, rep, tier)
     rep.run(containers.run_exact, rep, tier, clauses=('K-structure',))
-    rep.run(rules_numeric.run, rep, tier, clauses=('N-shape',))
+    rep.run(rules_numeric.run, rep, tier, clauses=('N-shape', 'N-jvp-space'))
